@@ -107,7 +107,8 @@ func (c17) Run(c *core.Ctx) {
 							c.Do(nc.id(), func() core.Outcome { c17extraOpts = nil; return c17nameCheck(base, nc, texts, textVal) })
 							// the name rules do not depend on the other load options: the same point with normalisation off,
 							// with consistency checks and path resolution off, without environment resolution
-							if c.Quick() && di > 1 {
+							if c.Quick() && di != 0 && di != len(dirs)-1 {
+								// quick: the plain directory name and the one that normalises to nothing
 								continue
 							}
 							for _, os := range c17optionSets {
